@@ -444,6 +444,7 @@ def uf_family(run, r, n):
             th, err = None, type(e).__name__
         run.stat('uf:%s:%s:%s' % (rule, origin, 'accepted' if th is not None else err))
         run.count(('uf', rule, tuple(sstr(a) for a in args), tuple(sstr(p) for p in prevs)), nontrivial=th is not None)
+        args_show = [sstr(a) for a in args]
         if th is None:
             return
         stats['accepted'] += 1
@@ -585,6 +586,36 @@ def uf_family(run, r, n):
         cl = cmpc(l_, r_)
         for rhs in (true, false, Not(kterm.less_eq(T)(r_, l_)), kterm.less_eq(T)(r_, l_), Not(kterm.less(T)(r_, l_)), kterm.less(T)(r_, l_), cl):
             offer('verit_comp_simplify', [Eq(cl, rhs)], [], 'guessed')
+    # ---- ite_intro and the quantifier rules
+    from kernel.term import Forall, Exists
+    for _ in range(n):
+        c_ = r.choice([P1(r.choice(xs)), Eq(r.choice(xs), r.choice(xs)), r.choice(ps)])
+        a1, a2 = sterm(1), sterm(1)
+        it = logic.mk_if(c_, a1, a2)
+        lhs = r.choice([P1(it), Eq(f1(it), r.choice(xs)), R2(it, a1)])
+        dfn = logic.mk_if(c_, Eq(a1, it), Eq(a2, it))
+        other = r.choice([P1(a1), r.choice(ps), Not(lhs), false, true])
+        for rhs in (And(lhs, dfn), lhs, And(other, dfn), other, And(lhs, logic.mk_if(c_, Eq(a2, it), Eq(a1, it))), dfn, And(dfn, lhs)):
+            offer('verit_ite_intro', [Eq(lhs, rhs)], [], 'guessed')
+        offer('verit_ite_intro', [Eq(r.choice(ps), r.choice(ps + [true, false]))], [], 'guessed')
+        offer('verit_ite_intro', [Eq(sterm(1), sterm(1))], [], 'guessed')
+        x_, y_ = xs[0], xs[1]
+        body = r.choice([P1(x_), R2(x_, y_), Eq(f1(x_), y_), And(P1(x_), r.choice(ps)), P1(y_), r.choice(ps), true, false])
+        Q = r.choice([Forall, Exists])
+        q1 = Q(x_, body)
+        q2 = Q(x_, Q(y_, body))
+        for lhs_q in (q1, q2):
+            for rhs in (body, true, false, q1, q2, Q(y_, body), Forall(x_, body), Exists(x_, body)):
+                for rule in ('verit_qnt_simplify', 'verit_qnt_rm_unused', 'verit_qnt_join'):
+                    offer(rule, [Eq(lhs_q, rhs)], [], 'guessed')
+        fa = Forall(x_, body)
+        t_ = sterm(1)
+        inst = body.subst(Inst(**{x_.name: t_})) if False else Forall(x_, body).arg.subst_bound(t_)
+        for concl in (inst, body, Forall(x_, body).arg.subst_bound(sterm(1)), Not(inst)):
+            offer('verit_forall_inst', [Or(Not(fa), concl), (x_.name, t_)], [], 'guessed')
+        ex = Exists(x_, body)
+        offer('verit_forall_inst', [Or(Not(ex), inst), (x_.name, t_)], [], 'guessed')
+
     # ---- shape bank: every boolean simplification rule is offered every left side of the bank with every right side built
     #      from the same sub-formulas (the rule decides, Z3 judges what was accepted)
     bool_rules = ['verit_not_simplify', 'verit_and_simplify', 'verit_or_simplify', 'verit_implies_simplify', 'verit_equiv_simplify',
